@@ -8,6 +8,7 @@ mod c06;
 mod c15;
 mod c16;
 mod c19;
+mod c20;
 mod history;
 mod hooks;
 mod store;
@@ -29,6 +30,7 @@ fn main() {
         "C15" => c15::run(&args, &mut rep),
         "C16" => c16::run(&args, &mut rep),
         "C19" => c19::run(&args, &mut rep),
+        "C20" => c20::run(&args, &mut rep),
         p => rep.inconclusive(format!("vp-store does not serve {p}")),
     }
     if hooks::pause_timeouts() > 0 {
